@@ -15,7 +15,8 @@ RULE = ("each case: a CHK file (k<=4, N<=6, segment size from {8k,16k,64,100}, 1
         "each consumer has a script of pause/resume/stop events keyed by its write count or by the global scheduler step; paused consumers that the script never resumes are "
         "resumed by the harness once the system is quiescent. Oracle: an un-stopped read ends successfully having received exactly plaintext[offset:offset+size] (clipped, "
         "empty at/after EOF); a stopped read ends (DownloadStopped or, if everything had arrived, success) with a correct prefix; no read hangs. "
-        "Non-trivial = >=2 reads touching a common segment, or any pause/stop event that took effect; distinct by whole case.")
+        "Non-trivial = >=2 reads touching a common segment, or any pause/stop event that took effect; distinct by whole case."
+        ' Added dimensions: reads issued later (at a scheduler step, or while the j-th piece of CPU-thread-pool work such as a segment decode is still out), consumer events keyed to that same moment, and nodes that have served a read before (warm).')
 LEVEL_TEXT = "Random search over read ranges, consumer flow-control scripts and delivery orders against the byte-slice reference."
 ASSUMPTIONS = ["consumers follow the IPushProducer contract: resumeProducing only after pauseProducing, nothing after stopProducing", "honest servers (faults are C02/C03/C46)"]
 REQUIRED_CLASSES = ["read-issued-during-thread-work", "stop-during-thread-work", "guess<real", "concurrent", "overlap-same-segment", "pause-in-flight", "stop", "past-eof", "at-eof", "literal", "size-none", "cross-segment"]
